@@ -93,7 +93,7 @@ OBLIGATIONS = [
     kani("c09_n50_no_walls", ["C09"], "C09.corner", "N50Data::from(&EnergyProps)", bounded="element maps empty; every global scalar symbolic"),
     # ---- C13 ------------------------------------------------------------------------------------------
     kani("c13_aabb_join", ["C13"], "C13.aabb.join", "AABB::join / AABB::default"),
-    verus("bvh_builder", ["C13", "C14"], "C13.builder", "BVH::generate_node_list"),
+    verus("bvh_builder", ["C13", "C14"], "C13.builder", "BVH::generate_node_list + BVH::partition_elements_by_centroid"),
     verus("bvh_traversal", ["C13", "C12"], "C13.traversal", "PreorderIter::next (bemodel/src/energy/raytracing/bvh.rs, verbatim)"),
     # ---- C17 / C03 (convert) -------------------------------------------------------------------------
     kani("c17_day_of_year", ["C17"], "C17.doy", "convert::from_ctehexml::day_of_year"),
@@ -128,8 +128,8 @@ OBLIGATIONS = [
     native("n_c16_purge", ["C16"], "C16.purge", "purge_unused(&mut Model)", RN + "n_c16_purge"),
     native("n_c13_bvh_equiv", ["C13", "C12"], "C13.bvh.equiv", "BVH::build / BVH::intersects / build_from_node_list / PreorderIter", BV + "n_c13_bvh_equiv", crash=True, timeout=120),
     native("n_c13_bvh_many", ["C13", "C14"], "C13.bvh.many", "BVH::build / partition_elements_by_centroid", BV + "n_c13_bvh_many", crash=True, timeout=120),
-    native("n_c13_partition", ["C13"], "C13.partition", "BVH::partition_elements_by_centroid (contract P assumed by the Verus unit)", BV + "n_c13_partition"),
-    native("n_c13_partition_identical", ["C13"], "C13.partition.identical", "BVH::partition_elements_by_centroid (contract P assumed by the Verus unit)", BV + "n_c13_partition_identical"),
+    native("n_c13_partition", ["C13"], "C13.partition", "BVH::partition_elements_by_centroid (the plane step's contract P' is assumed by the Verus unit; P is proved there)", BV + "n_c13_partition"),
+    native("n_c13_partition_identical", ["C13"], "C13.partition.identical", "BVH::partition_elements_by_centroid (the plane step's contract P' is assumed by the Verus unit; P is proved there)", BV + "n_c13_partition_identical"),
     native("n_c13_point_in_poly", ["C13"], "C13.pip", "raytracing::ray::point_in_poly", RY + "n_c13_point_in_poly"),
     native("n_c13_ray_polygon", ["C13"], "C13.ray.poly", "Ray::intersects_with_data", RY + "n_c13_ray_polygon"),
     native("n_c13_ray_posed", ["C13"], "C13.ray.posed", "impl Intersectable for WallGeom / WallGeom::to_global_coords_matrix", EN + "n_c13_ray_posed"),
@@ -267,8 +267,8 @@ MANIFEST_TEXT = {
             "text": "Bounded: every sunlit fraction and every factor lies in [0,1] (never NaN), 1 for missing geometry, 0 behind the window, non-increasing when any of 5 obstacles is added (all 32 subsets), >= 0.97 and equal to the independent hour-by-hour mean when unobstructed, equal to the diffuse share when hidden at every hour.",
             "note": "radiation_for_surface (trigonometry) is used as given inside the oracle; partially obstructed values are not decided. " + _TB},
     "C13": {"technique": "Verus contracts (requires/ensures/invariant/decreases + ghost lemmas) on BVH::generate_node_list extracted verbatim every run; Kani proofs of the AABB algebra; bounded enumeration for tree reconstruction, ray/polygon tests and reveal surfaces",
-            "text": "Unbounded proof (Verus, any number of obstacles and any leaf size >= 1): the node-list builder terminates, has no arithmetic overflow/underflow and no failing unwrap, loses no element (leaf sizes add up to n), puts the parentless root first, gives every leaf 1..max elements and every entry an earlier Node as parent - under the partition contract P (both halves non-empty), which is discharged boundedly on the real partition function. Kani proves join/containment/identity of boxes and that a ray hitting a box hits every enclosing box. Accelerated == exhaustive answers, point-in-polygon, ray/posed-polygon hits, box tightness and reveal surfaces are bounded obligations.",
-            "note": _TB + "partition_elements_by_centroid is external_body in the Verus unit (assumed contract P, twin obligation C13.partition bounded); build_from_node_list / PreorderIter use BTreeMap and Box recursion and are covered only by the bounded equivalence obligation."},
+            "text": "Unbounded proof (Verus, any number of obstacles and any leaf size >= 1): the node-list builder terminates, has no arithmetic overflow/underflow and no failing unwrap, loses no element (leaf sizes add up to n), puts the parentless root first, gives every leaf 1..max elements and every entry an earlier Node as parent; the partition step partition_elements_by_centroid (verbatim) gives two non-empty halves for n >= 2, loses nothing and calls split_off inside its precondition - under contract P' of the plane step (every element goes to exactly one side), which is checked boundedly on the real function. Kani proves join/containment/identity of boxes and that a ray hitting a box hits every enclosing box. Accelerated == exhaustive answers, point-in-polygon, ray/posed-polygon hits, box tightness and reveal surfaces are bounded obligations.",
+            "note": _TB + "partition_elements_by_centroid_plane (f32 mean + Iterator::partition) is external_body in the Verus unit (assumed contract P': every element on exactly one side; twin obligation C13.partition bounded); build_from_node_list / PreorderIter use BTreeMap and Box recursion and are covered only by the bounded equivalence obligation."},
     "C14": {"technique": "panic-freedom / termination contract on Model::energy_indicators over every single structural edit (and a stated family of pairs) of a seed model's JSON tree, enumerated exhaustively (bounded); Kani/Verus panic-freedom of the leaves",
             "text": "Bounded: for every model obtained from a closed seed by one edit (1187) or a stated set of edit pairs (69k) that still loads, the computation returns without panic within 20 s and a later computation on the seed is unaffected; the closed seed gives finite figures that serialise and load back. Deductive part: panic-freedom and termination of the BVH builder (Verus) and of the ground formulas (Kani).",
             "note": "Scope = edits of one seed model; exhaustive within it. " + _TB},
